@@ -16,14 +16,17 @@
     pay    <cur> <curExp> <rr> <total> <nr> {<from> <to> <amount> <toExp>}^nr
            <nl> {L <cur|-> <debit|-> <credit|-> (- | D <valid 0|1> <docExp> <T|N>)}^nl
   Responses
-    merge:   m <T|panic> dom <uniform? e|-> wf <b> dup <b> P <b>
+    merge:   m <T> dom <uniform? e|-> wf <b> dup <b> P <b>
     negate:  m <T> P <b>
-    zero:    m <T|panic> dup <b> P <b>
+    zero:    m <T> dup <b> P <b>
     comm:    dom <e|-> dup <b> P <b>
     matches: m <b> s <b>
     calc:    m <T>
     pay:     m (ok <n> <lineTotals…> <total> <T|N> | err <kind> | undef) s <specTotal|->
-  `undef` when an intermediate leaves int64 (not modelled).
+  `undef` (in place of <T>) when an intermediate leaves int64 (not modelled).
+  The model of `Merge` is total: a `panic` of the Go code is never predicted, `P` is
+  0 for it.  `wf` (no exempt group carries a surcharge) is only reported for the
+  input distribution.
 -/
 import GoblVerif.Model.Payment
 import GoblVerif.Spec.C20
@@ -158,9 +161,8 @@ def scaleSafe (t : Total) : Bool :=
   okTotal t
 
 def handleMerge (a b : Total) (g : Option Total) : String :=
-  let m := if a.mergePanics b then "panic" else
-    let r := a.merge b
-    if okTotal r then sTotal r else "undef"
+  let r := a.merge b
+  let m := if okTotal r then sTotal r else "undef"
   let dom := commonExp a b
   let p := match dom, g with
     | some e, some out => mergeOracle e a b out
@@ -191,9 +193,8 @@ def handle (toks : List String) : String :=
     | some (a, r) => match pGo r with
       | some (g, []) =>
         let n := a.negate
-        let m := if a.mergePanics n then "panic" else
-          let r := a.merge n
-          if okTotal r && okTotal n then sTotal r else "undef"
+        let r := a.merge n
+        let m := if okTotal r && okTotal n then sTotal r else "undef"
         let p := match g with | some out => allZero out | none => false
         s!"m {m} dup {b01 (!noDuplicates a)} P {b01 p}"
       | _ => "bad-args"
@@ -269,7 +270,6 @@ def handle (toks : List String) : String :=
       match p.calculate with
       | .error .noRate => pure s!"m err noRate s {spec}"
       | .error .docCurrency => pure s!"m err docCurrency s {spec}"
-      | .error .panic => pure s!"m err panic s {spec}"
       | .ok res =>
         let okT := match res.tax with | none => true | some t => okTotal t
         if res.lineTotals.all okA && okA res.total && okT then
